@@ -59,9 +59,15 @@ def cases(tier):
         for seeded in (False, True):
             out.append({'cfg': {'scenario': 'odd_statement', 'n': 4, 'x': 1, 'cap': 4, 'commitments': nc, 'promises': np_, 'seeded': seeded, 'actions': ACTIONS}, 'kind': 'odd',
                         'name': 'statement with %d commitments and %d promises%s' % (nc, np_, ' and a seed' if seeded else '')})
+    # batches beyond the internal chunk size with MIXED aggregation factors (opaque proofs: the whole arithmetic runs, nothing is accepted):
+    # the largest member in the first chunk / in a later chunk / at a position that recurs in the next chunk
+    for (k, big) in ([(257, 0), (300, 7)] if tier == 'quick' else [(257, 0), (300, 7), (257, 256), (513, 300), (520, 258)]):
+        members = [{'m': (2 if i == big else 1), 'cap': 2, 'rounds': (2 if i == big else 1)} for i in range(k)]
+        out.append({'cfg': {'scenario': 'adversarial', 'n': 2, 'x': 1, 'members': members, 'actions': ['VerifyOnly', 'RecoverAndVerify'], 'forced': [['final_eq', 0, True]]}, 'kind': 'verify',
+                    'name': 'batch of %d opaque proofs, the only aggregated member at %d' % (k, big)})
     # statements built through the constructors from Pedersen generators whose vector length disagrees with their degree tag
     for x in (1, 2, 6):
-        for ts in ({'op': 'g_append'}, {'op': 'g_drop_last'}, {'op': 'degree_tag', 'x': x + 1 if x < 6 else 5}, {'op': 'degree_tag', 'x': x - 1 if x > 1 else 2}):
+        for ts in ({'op': 'g_append'}, {'op': 'g_drop_last'}, {'op': 'gc_append'}, {'op': 'gc_drop_last'}, {'op': 'degree_tag', 'x': x + 1 if x < 6 else 5}, {'op': 'degree_tag', 'x': x - 1 if x > 1 else 2}):
             if ts['op'] == 'g_drop_last' and x == 1:
                 continue
             for members in ([{'m': 1, 'cap': 1, 'tamper_statement': ts}], [{'m': 1, 'cap': 2}, {'m': 2, 'cap': 2, 'tamper_statement': ts}], [{'m': 2, 'cap': 2, 'tamper_statement': ts}, {'m': 1, 'cap': 2}]):
